@@ -173,6 +173,42 @@ fn inline_permutation_family() -> Vec<Prog> {
   out
 }
 
+/// Dead but possibly trapping / effectful computations: a division or modulo whose result is never
+/// used (divisor zero, non-zero, INT_MIN / -1), an unused call that prints or panics, an unused
+/// out-of-bounds Vec access - straight-line, under a branch, inside a loop body and after the loop.
+/// No pass may remove (or hoist above an earlier effect) something that traps or prints.
+fn dead_effect_family() -> Vec<Prog> {
+  let dead: [(&str, &str); 9] = [
+    ("div-by-zero", "let _ = a / z;"),
+    ("mod-by-zero", "let _ = a % z;"),
+    ("div-nonzero", "let _ = a / one;"),
+    ("min-div-minus-one", "let _ = min / (0 - one);"),
+    ("div-by-literal-zero", "let _ = a / 0;"),
+    ("printing-call", "let _ = Main.noisy(a);"),
+    ("panicking-call", "let _ = Main.boom(a);"),
+    ("vec-out-of-bounds", "let _ = Vec.of(1, 2).get(a);"),
+    ("nested-dead-div", "let _ = (a + 1) * (a / z);"),
+  ];
+  let places: [(&str, &str); 5] = [
+    ("straight-line", "    Process.println(\"before\");\n    DEAD\n    Process.println(\"after\");\n    a"),
+    ("taken-branch", "    Process.println(\"before\");\n    if a > 0 { DEAD } else { };\n    Process.println(\"after\");\n    a"),
+    ("untaken-branch", "    Process.println(\"before\");\n    if a < 0 { DEAD } else { };\n    Process.println(\"after\");\n    a"),
+    ("loop-body", "    Process.println(\"before\");\n    let r = Main.loop(a, z, one, min, 0);\n    Process.println(\"after\");\n    r"),
+    ("value-of-function", "    Process.println(\"before\");\n    DEAD\n    7"),
+  ];
+  let mut out = vec![];
+  for (dname, d) in dead {
+    for (pname, body) in places {
+      let text = format!(
+        "class Main {{\n  function noisy(x: int): int = {{ Process.println(\"noisy \" :: Str.fromInt(x)); x }}\n  function boom(x: int): int = if x > 0 {{ Process.panic(\"boom\") }} else {{ x }}\n  function loop(a: int, z: int, one: int, min: int, i: int): int = if i < 3 {{\n    Process.println(\"iteration \" :: Str.fromInt(i));\n    {d}\n    Main.loop(a, z, one, min, i + 1)\n  }} else {{ i }}\n  function run(a: int, z: int, one: int, min: int): int = {{\n{}\n  }}\n  function main(): unit = {{\n    Process.println(Str.fromInt(Main.run(\"5\".toInt(), \"0\".toInt(), \"1\".toInt(), (0 - 2147483647) - \"1\".toInt())))\n  }}\n}}\n",
+        body.replace("DEAD", d)
+      );
+      out.push(Prog { family: "dead-effect", shape: format!("dead={dname} place={pname}"), name: format!("dead effect {dname} in {pname}"), text });
+    }
+  }
+  out
+}
+
 fn loop_family(thorough: bool) -> Vec<Prog> {
   let guards: Vec<(&str, &str)> = vec![
     ("i<B", "I < B"), ("i<=B", "I <= B"), ("i>B", "I > B"), ("i>=B", "I >= B"), ("i!=B", "I != B"),
@@ -443,6 +479,7 @@ fn main() {
   let mut progs = loop_family(thorough);
   progs.extend(operand_order_family());
   progs.extend(inline_permutation_family());
+  progs.extend(dead_effect_family());
   let fams = progfam::all_families(thorough);
   if thorough {
     progs.extend(fams);
